@@ -134,27 +134,59 @@ def _euclid_loop(I, pa, pb):
     xs = [l for l, v in ent.items() if is_abs_of(v, pa)]
     ys = [l for l, v in ent.items() if is_abs_of(v, pb)]
     uid = L.uid(head)
+
+    def is_rem(v, u, w):
+        return isinstance(v, tuple) and v and v[0] == "call" and str(v[1]).endswith("Rem::rem") and [unref(q) for q in v[2] if not (isinstance(q, tuple) and q and q[0] == "mem")] == [u, w]
+
+    def same_operands(facts):
+        """the facts say the two operands are equal (`if a == b { return |a| }`)"""
+        for f in facts:
+            t = f[1]
+            if f[0] in ("eq", "ne") and isinstance(t, tuple) and t and t[0] == "call" and str(t[1]).endswith(("PartialEq::eq", "PartialEq::ne")):
+                a = [strip_mem(unref(y)) for y in t[2] if not (isinstance(y, tuple) and y and y[0] == "mem")]
+                truth = (f[0] == "eq") == bool(f[2])
+                equal = truth if str(t[1]).endswith("::eq") else not truth
+                if equal and len(a) == 2 and {a[0], a[1]} == {pa, pb}:
+                    return True
+        return False
+
     found = None
     for x in xs:
         for y in ys:
             px, py = ("phi", uid, x), ("phi", uid, y)
+            # one step per round: (x, y) := (y, x % y) under y != 0 ...
             good = True
             for bs in backs:
                 nx, ny = bs.env.get(x), bs.env.get(y)
-                rem = isinstance(ny, tuple) and ny and ny[0] == "call" and str(ny[1]).endswith("Rem::rem") and [unref(q) for q in ny[2] if not (isinstance(q, tuple) and q and q[0] == "mem")] == [px, py]
-                good = good and nx == py and rem and zero_test(bs.facts, py, False)
+                good = good and nx == py and is_rem(ny, px, py) and zero_test(bs.facts, py, False)
             if good:
-                found = (x, y, px, py)
+                found = (x, y, px, py, None)
+                continue
+            # ... or two steps per round without the swap: x := x % y under y != 0, then y := y % x under x != 0
+            good = True
+            mid = None
+            for bs in backs:
+                nx, ny = bs.env.get(x), bs.env.get(y)
+                good = good and is_rem(nx, px, py) and is_rem(ny, py, nx) and zero_test(bs.facts, py, False) and zero_test(bs.facts, nx, False)
+                mid = nx
+            if good and mid is not None:
+                found = (x, y, px, py, mid)
     if found is None:
         return False
-    x, y, px, py = found
+    x, y, px, py, mid = found
     ax, ay = ent[x], ent[y]
     for st in I.final_states:
         r = util.ret_term(st)
         through = any(e.kind == "loop" for e in st.event_list())
         if through:
-            if not (r == px and zero_test(st.facts, py, True)):
-                return False
+            if r == px and zero_test(st.facts, py, True):
+                continue
+            # between the two steps of a round the pair is (y, x % y): left with y when x % y == 0
+            if mid is not None and r == py and zero_test(st.facts, mid, True):
+                continue
+            return False
+        elif same_operands(st.facts) and (is_abs_of(r, pa) or is_abs_of(r, pb)):
+            continue   # gcd(a, a) = |a|
         elif not ((is_abs_of(r, pa) and (zero_test(st.facts, ay, True) or zero_test(st.facts, pb, True))) or (is_abs_of(r, pb) and (zero_test(st.facts, ax, True) or zero_test(st.facts, pa, True)))):
             # (b == 0 exactly when |b| == 0: the fast path may test the raw operand)
             return False
